@@ -136,7 +136,7 @@ impl GameData {
     }
 
     fn get_dat_file(&self, path: &str, chunk: u8, data_file_id: u32) -> Option<SqPackData> {
-        let (repository, category) = self.parse_repository_category(path).unwrap();
+        let (repository, category) = self.parse_repository_category(path)?;
 
         let dat_path: PathBuf = [
             self.game_directory.clone(),
@@ -223,7 +223,10 @@ impl GameData {
             }
         }
 
-        Some((&self.repositories[0], string_to_category(&category_token)?))
+        Some((
+            self.repositories.first()?,
+            string_to_category(&category_token)?,
+        ))
     }
 
     fn get_index_filenames(&self, path: &str) -> Option<Vec<(String, u8)>> {
